@@ -67,6 +67,9 @@ const wallDefs = `(do
  nil)`
 
 func (e *cancelWallEngine) generate(r *rng, n int, tier string, emit func(string)) {
+	for i := range wallValuePrograms {
+		emit(fmt.Sprintf("value prog=%d after=600ms", i))
+	}
 	emit("window after=24ms")
 	emit("window after=18ms")
 	for i := 0; i < n; i++ {
@@ -103,7 +106,59 @@ func (e *cancelWallEngine) runWindow(afterMs int) string {
 	return fmt.Sprintf("handler-never-ran\t!a timeout raised inside a try body entered %d ms before the deadline was never caught: the handler did not get to run in 12 attempts", afterMs)
 }
 
+// value: programs that DO end under a deadline, with the value the budget rule prescribes: a timeout raised inside the
+// body of a try is caught by THAT try's handler (the inner one), which gets to run (windows of tens of milliseconds)
+var wallValuePrograms = []struct{ src, want string }{
+	{"(try (try (sleep 100000) (catch e :inner)) (catch e2 :outer))", "\u029einner"},
+	{"(do (def risky (fn [] (try (sleep 100000) (catch e :recovered)))) (try [(risky) :after] (catch e2 :outer)))", ""},
+	{"(try (try (spin 0) (catch e :inner) (finally 1)) (catch e2 :outer))", "\u029einner"},
+}
+
+func (e *cancelWallEngine) runValue(idx, afterMs int) string {
+	if idx < 0 || idx >= len(wallValuePrograms) {
+		return "bad-case"
+	}
+	ec := &evalCase{}
+	env, err := freshEnv(ec)
+	if err != nil {
+		return "setup-error"
+	}
+	defs, err := lisp.READ("(def spin (fn [n] (spin (+ n 1))))", nil, env)
+	if err != nil {
+		return "setup-error"
+	}
+	lisp.EVAL(context.Background(), defs, env)
+	ast, err := lisp.READ(wallValuePrograms[idx].src, nil, env)
+	if err != nil {
+		return "setup-error"
+	}
+	ctx, cancel := context.WithTimeout(context.Background(), time.Duration(afterMs)*time.Millisecond)
+	defer cancel()
+	v, err := lisp.EVAL(ctx, ast, env)
+	got := "err"
+	if err == nil {
+		got = render(v)
+	}
+	want := wallValuePrograms[idx].want
+	if want == "" {
+		want = render(Vector{Val: []MalType{"\u029erecovered", "\u029eafter"}})
+	} else {
+		want = render(want)
+	}
+	if got != want {
+		return "value=" + got + "\t!a timeout raised inside the body of an inner try was not handled by that try's handler: " + wallValuePrograms[idx].src + " ⇒ " + got + " (expected " + want + ")"
+	}
+	return "ok"
+}
+
 func (e *cancelWallEngine) run(payload string) string {
+	if strings.HasPrefix(payload, "value ") {
+		var idx, ms int
+		if _, err := fmt.Sscanf(payload, "value prog=%d after=%dms", &idx, &ms); err != nil {
+			return "bad-case"
+		}
+		return e.runValue(idx, ms)
+	}
 	if strings.HasPrefix(payload, "window ") {
 		var ms int
 		if _, err := fmt.Sscanf(payload, "window after=%dms", &ms); err != nil {
